@@ -508,7 +508,9 @@ class Unit:
         if deep:
             registry = copy.deepcopy(self.registry)
         else:
-            registry = copy.copy(self.registry)
+            # a shallow copy shares the registry itself; copy.copy() of it
+            # would be a second registry object writing into the same table
+            registry = self.registry
         return Unit(expr, base_value, base_offset, dimensions, registry)
 
     def __deepcopy__(self, memodict=None):
